@@ -1,5 +1,5 @@
 CONSTANTS Bases <- BasesAB  Filters <- FiltersPT  Paths <- PathsXY
-  MaxFl = 2  MaxHandles = 50  MaxColls = 50  MaxOps = 1000  KeyIncludesFilters = TRUE
+  MaxFl = 2  MaxHandles = 50  MaxColls = 50  MaxOps = 1000  KeyIncludesFilters = TRUE  Views <- ViewsTP
 SPECIFICATION TSpec
 INVARIANT Done
 CHECK_DEADLOCK FALSE
